@@ -302,7 +302,14 @@ def run_unit(unit, rlimit=None, seed=None, vac=True, quiet=False, known=()):
     if re.search(r"\b(assume|admit)\s*\(", re.sub(r"//[^\n]*", "", text)):
         undecided.append({"message": "assume()/admit() present in generated unit: refused"})
     if rounds:
+        # the counts reported are those of the re-verification with the listed known clauses blanked: what is claimed as
+        # proved excludes exactly the known-finding obligations, which are counted separately
         summary = summary_k
+        if summary:
+            vr_k = summary.get("verification-results", {})
+            res["verified"] = vr_k.get("verified", 0)
+            res["errors"] = vr_k.get("errors", 0)
+        res["known_excluded"] = len([f for f in failed if f.get("suppressed")])
     if undecided:
         res["status"] = "undecided"
     elif [f for f in failed if not f.get("suppressed")]:
